@@ -152,6 +152,24 @@ pub fn run(a: &Args) {
             }
         }
     }
+    // 3. long bursts: hundreds of small frames delivered by ONE transport read (so that hundreds of packets are handed out without the
+    //    transport being touched), and the future dropped at every pending poll it ever reports, wherever that is
+    for compressed in [true, false] { for (k, ka_every) in [(130usize, 0usize), (300, 0), (260, 7), (700, 50)] {
+        let frames: Vec<Vec<u8>> = (0..k).map(|i| if ka_every > 0 && i % ka_every == ka_every - 1 { raw_frame(compressed, 3, 0, &[0]) } else { raw_frame(compressed, 3, (i % 255) as u8 + 1, &[(3 + i % 5) as u8]) }).collect();
+        let fr = Frames::new(compressed, frames); let idx = RepIndex::new(&fr);
+        let stream = fr.stream();
+        for layout in 0..3 {
+            let mut evs = vec![];
+            match layout { 0 => { evs.push(REv::Data(stream.clone())); }, 1 => { evs.push(REv::Pend); evs.push(REv::Data(stream[..6].to_vec())); evs.push(REv::Pend); evs.push(REv::Data(stream[6..].to_vec())); }, _ => { let h = stream.len() / 2 + 1; evs.push(REv::Data(stream[..h].to_vec())); evs.push(REv::Pend); evs.push(REv::Data(stream[h..].to_vec())); } }
+            evs.push(REv::Pend); evs.push(REv::Eof);
+            let ws: Vec<WEv> = (0..k / 3).map(|i| if i % 3 == 0 { WEv::Pending } else { WEv::Accept(1) }).collect();
+            let (base, _, _) = run_async(&cx.rt, &fr, &idx, false, &evs, &ws, &[]);
+            for cancels in [vec![true; 4 * k + 64], (0..4 * k + 64).map(|i| i % 2 == 0).collect::<Vec<bool>>()] {
+                one(&mut cx, &fr, &idx, false, &evs, &ws, &cancels, &base, &mut st, if k <= 300 { Some(&mut out) } else { None });
+                st.bump("long bursts (>= 130 frames per transport read)");
+            }
+        }
+    } }
     st.rule = "the real tokio Framed::read() future polled by hand on a scripted transport under a paused clock and dropped at chosen Pending polls: every cancellation schedule of three short scripts whose read and write halves pend at every turn, and random sessions of 1..60 frames (40% keep-alives; all kinds; transient errors) with random not-ready turns on both halves and 10/50/100% of the pending polls dropping the future; oracle = same results as the uninterrupted run, which equal the per-frame expectation with whole replies; non-trivial = a future was dropped in a session with keep-alives whose write half pends".into();
     st.notes.push(format!("futures dropped: {} in total, up to {} in one session; pending polls seen: {}", cx.total_dropped, cx.max_dropped, cx.total_pending));
     st.sample("async C 0 f:030000:K:0 f:030703:O:1 | N D0103 N D0000 N D0103 N D0703 N Z | p a0 p a1 p p a0 | 0110100".into());
